@@ -174,6 +174,9 @@ def twopass_rules():
     R.append(('subst', Rule(0, [ab], A('PUT_SUBS', 0, 0, 3, 0, 2, 'NEXT', 'RET_ZERO'))))
     R.append(('back2', Rule(0, [ab, ab], A('PUT_GLYPH', 0, 0, 'NEXT', 'NEXT') + push(-2) + A('POP_RET'))))
     R.append(('del_then_attach', Rule(0, [anyg, anyg, anyg], A('NEXT', 'DELETE', 'NEXT') + att(-2) + A('NEXT', 'RET_ZERO'))))
+    R.append(('insert_between_del2', Rule(0, [ab, ab], A('NEXT', 'INSERT', 'PUT_GLYPH', 0, 0, 'NEXT', 'DELETE', 'NEXT', 'RET_ZERO'))))        # a x:ins _   (the inserted slot sits between two slots)
+    R.append(('del_before_x', Rule(0, [ab, xy], A('DELETE', 'NEXT', 'NEXT', 'RET_ZERO'))))                                                # ab x > _ @2 (only inserted / substituted glyphs survive)
+    R.append(('insert_between_keep', Rule(0, [ab, ab], A('NEXT', 'INSERT', 'PUT_GLYPH', 0, 1, 'NEXT', 'NEXT', 'RET_ZERO'))))
     R.append(('attach_then_del_parent', Rule(0, [anyg, anyg], A('NEXT') + att(-1) + push(-1) + A('POP_RET'))))
     return R
 
@@ -238,6 +241,8 @@ def describe(item):
     if item[0] == 'constraint':
         _, atoms, t = item
         return dict(family='constraint', program=[CONSTRAINT_ATOMS[a][0] for a in atoms] + [CTERMS[t][0]])
+    if item[0] == 'slotattr':
+        return dict(family='slotattrs', slat=item[1], opcode=['ATTR_SET', 'ATTR_ADD', 'PUSH_SLOT_ATTR', 'IATTR_SET', 'PUSH_ISLOT_ATTR', 'IATTR_ADD'][item[2]], subindex=item[3], just_levels=item[4], num_user=item[5], where=item[6])
     if item[0] == 'growth':
         return dict(family='growth', inserts_per_glyph=item[1], late_pass=['none', 'insert', 'delete'][item[2]], second_substitution_pass=item[3], ijust_equals_ipos=item[4])
     if item[0] == 'manyrules':
@@ -253,8 +258,32 @@ def build(item):
     if item[0] == 'constraint': return font_for_constraint(item[1], item[2])
     if item[0] == 'twopass': return font_for_twopass(item[1], item[2], item[3], item[4])
     if item[0] == 'manyrules': return font_for_manyrules(item[1], item[2], item[3], item[4])
+    if item[0] == 'slotattr': return font_for_slotattr(*item[1:])
     if item[0] == 'growth': return font_for_growth(item[1], item[2], item[3], item[4])
     return font_for_twopass(item[1], item[2], 0, 0, item[3])
+
+
+def enum_slotattrs(tier):
+    """Every slot-attribute code 0..79 (defined or not) through every attribute opcode, with sub-indices at and beyond the font's limits, in fonts with
+    0 / 1 / 2 justification levels and 1 / 3 user attributes, in a substitution and in a positioning pass."""
+    for njl in (0, 1, 2):
+        for nuser in (1, 3):
+            for where in ('sub', 'pos'):
+                for slat in range(80):
+                    for op in range(3): yield ('slotattr', slat, op, 0, njl, nuser, where)
+                    for op in range(3, 6):
+                        for sub in (0, 1, 3, 255): yield ('slotattr', slat, op, sub, njl, nuser, where)
+
+
+def font_for_slotattr(slat, op, sub, njl, nuser, where):
+    F = base_font(); ab = {2, 3}
+    code = [push(7) + A('ATTR_SET', slat), push(7) + A('ATTR_ADD', slat), A('PUSH_SLOT_ATTR', slat, 0, 'ATTR_SET', SLAT['shiftY']),
+            push(7) + A('IATTR_SET', slat, sub), A('PUSH_ISLOT_ATTR', slat, 0, sub, 'ATTR_SET', SLAT['shiftY']), push(7) + A('IATTR_ADD', slat, sub)][op] + A('NEXT', 'RET_ZERO')
+    rule = Rule(0, [ab], code)
+    if where == 'sub': passes = [dict(maxloop=2, rules=[rule]), fixed_attach_pass()]; ipos = 1
+    else: passes = [dict(maxloop=2, rules=[Rule(0, [{3}], A('PUT_GLYPH', 0, 0, 'NEXT', 'RET_ZERO'))]), dict(maxloop=2, rules=[rule])]; ipos = 1
+    F['silf'] = dict(version=3, passes=passes, classes=CLASSES, nlinear=NLINEAR, iSubst=0, iPos=ipos, numUser=nuser, maxPre=1, maxPost=3, jlevels=[(5, 6, 5, 6)] * njl)
+    return F
 
 
 def enum_growth(tier):
@@ -294,7 +323,7 @@ def enum_deep(tier):
         for atoms in itertools.product(spos, repeat=5): yield ('action', (2, 0, 1, 'pos'), atoms, 0)
 
 
-ENUMS = dict(deep=enum_deep, action=enum_action, constraint=enum_constraint, twopass=enum_twopass, manyrules=enum_manyrules, growth=enum_growth)
+ENUMS = dict(slotattrs=enum_slotattrs, deep=enum_deep, action=enum_action, constraint=enum_constraint, twopass=enum_twopass, manyrules=enum_manyrules, growth=enum_growth)
 
 
 def main():
